@@ -93,9 +93,12 @@ Next ==
     \/ \E tw \in {t \in TwFams : t.name \in McTw}, o \in Bools, m \in Bools, i \in Bools : AllocTryWith(tw, o, m, i, FALSE)
     \/ \E tw \in {t \in TwFams : t.name = "a32_u8"}, m \in Bools : AllocTryWith(tw, FALSE, m, FALSE, TRUE)
     \/ AllocValue("copy_u8", 3, FALSE)
+    \/ \E tw \in {t \in TwFams : t.name = "u64_u64"}, m \in Bools : AllocTryWithP(tw, TRUE, m, FALSE, FALSE, TRUE)
     \/ \E e \in {[sz |-> 1, al |-> 1], [sz |-> 8, al |-> 8]}, c0 \in {0, 2}, w \in {"none", "wd", "ws"}, f \in Bools : VecNew(e, c0, w, f)
     \/ \E id \in VecIds, kh \in {<<1, "push">>, <<3, "extend_copy">>, <<2, "reserve_exact">>}, f \in Bools : VecExtend(id, kh[1], kh[2], f)
     \/ \E id \in VecIds : VecShrink(id) \/ VecTruncate(id, 0) \/ VecDrop(id) \/ VecInto(id)
+    \/ VecNewG([sz |-> 8, al |-> 8], 2, "none", FALSE, TRUE)
+    \/ \E id \in VecIds, kd \in {"max", "layout"} : VecReserveHuge(id, kd)
 
 Spec == Init /\ [][Next]_vars
 
@@ -120,6 +123,8 @@ VecNext ==
     \/ \E c0 \in {0, 2}, w \in {"none", "wd", "ws"} : VecNew([sz |-> 8, al |-> 8], c0, w, FALSE)
     \/ \E id \in VecIds, kh \in {<<1, "push">>, <<3, "extend_copy">>} : VecExtend(id, kh[1], kh[2], FALSE)
     \/ \E id \in VecIds : VecShrink(id) \/ VecTruncate(id, 0) \/ VecDrop(id) \/ VecInto(id)
+    \/ VecNewG([sz |-> 8, al |-> 8], 2, "none", FALSE, TRUE)
+    \/ \E id \in VecIds, kd \in {"max", "layout"} : VecReserveHuge(id, kd)
     \/ EnterFrame("scope")
     \/ ExitScope("return")
 VecSpec == Init /\ [][VecNext]_vars
@@ -201,6 +206,7 @@ SimStep ==
     \/ (G("trywith") /\ \E tw \in {R(TwFams)} : AllocTryWith(tw, R(Bools), R(Bools), FALSE, FALSE))
     \/ (G("trywith") /\ \E tw \in {R(TwFams)} : AllocTryWith(tw, R(Bools), FALSE, TRUE, FALSE))
     \/ (G("trywith") /\ CanFail /\ \E tw \in {R(TwFams)} : AllocTryWith(tw, R(Bools), R(Bools), FALSE, TRUE))
+    \/ (G("trywith") /\ \E tw \in {R(TwFams)} : AllocTryWithP(tw, R(Bools), R(Bools), FALSE, FALSE, TRUE))
     \/ (G("value") /\ AllocValue(R(ValueFams), R({1, 3, 5, 40}), FALSE))
     \/ (G("value") /\ CanFail /\ AllocValue(R(ValueFams), R({5, 40, 700}), TRUE))
     \/ (G("composite") /\ \E w \in {R(Workloads)} : ScopeTwice(w))
@@ -221,6 +227,8 @@ SimStep ==
     \/ (G("vec") /\ VecIds # {} /\ \E id \in {R(VecIds)} : blocks[id].vlen > 0 /\ \E n \in {R(0..(blocks[id].vlen - 1))} : VecTruncate(id, n))
     \/ (G("vec") /\ VecIds # {} /\ VecDrop(R(VecIds)))
     \/ (G("vec") /\ VecIds # {} /\ VecInto(R(VecIds)))
+    \/ (G("vec") /\ Cardinality(VecIds) < 3 /\ VecNewG(R(VecElems), R({1, 2, 4, 10}), "none", FALSE, TRUE))
+    \/ (G("vec") /\ G("fail") /\ VecIds # {} /\ \E id \in {R(VecIds)} : VecReserveHuge(id, R({"max", "layout"})))
     \/ (G("vec") /\ IterGrow(R(VecElems), R({0, 0, 2, 5, 30}), R({0, 1, 3, 5, 9, 17})))
     \/ (G("vec") /\ FmtGrow(R({<<1, 1>>, <<3, 20>>, <<5, 5, 5>>, <<40, 1, 300>>, <<8, 600>>}), R(Bools)))
     \/ (G("fail") /\ CanFail /\ Alloc(R(Layouts), FALSE, TRUE))
